@@ -527,31 +527,7 @@ func (r *sessRun) nameRace(rounds int) {
 		}
 		ps = append(ps, p)
 	}
-	for round := 0; round < rounds; round++ {
-		start := make(chan struct{})
-		var wg sync.WaitGroup
-		okc := make([]bool, K)
-		for i, p := range ps {
-			wg.Add(1)
-			go func(i int, p *sessPeer) {
-				defer wg.Done()
-				<-start
-				resp, err := p.NewProxy(&msg.NewProxy{ProxyName: "a", ProxyType: "stcp", Sk: "k"}, 5*time.Second)
-				okc[i] = err == nil && resp.Error == ""
-			}(i, p)
-		}
-		close(start)
-		wg.Wait()
-		for i, p := range ps {
-			if okc[i] {
-				before := r.countEv("ctl.closeproxy.end")
-				_ = p.CloseProxy("a")
-				waitFor(2*time.Second, func() bool { return r.countEv("ctl.closeproxy.end") > before })
-			}
-		}
-		r.stat("namerace_rounds")
-	}
-	// directed: the loser of a same-name race is parked right after its name check passed (ctl.exist.pass) while the winner
+	// directed (first, so that a violation is met early in the trace): the loser of a same-name race is parked right after its name check passed (ctl.exist.pass) while the winner
 	// registers completely; the loser's registration then fails further down the pipeline (stcp: the listener exists; tcp on
 	// a server-chosen port: the name table refuses the insert) and is rolled back - the incumbent's name stays taken
 	for vi, mk := range []func(string) *msg.NewProxy{
@@ -586,6 +562,30 @@ func (r *sessRun) nameRace(rounds int) {
 			_ = p.CloseProxy(name)
 			waitFor(500*time.Millisecond, func() bool { return r.countEv("ctl.closeproxy.end") > before })
 		}
+	}
+	for round := 0; round < rounds; round++ {
+		start := make(chan struct{})
+		var wg sync.WaitGroup
+		okc := make([]bool, K)
+		for i, p := range ps {
+			wg.Add(1)
+			go func(i int, p *sessPeer) {
+				defer wg.Done()
+				<-start
+				resp, err := p.NewProxy(&msg.NewProxy{ProxyName: "a", ProxyType: "stcp", Sk: "k"}, 5*time.Second)
+				okc[i] = err == nil && resp.Error == ""
+			}(i, p)
+		}
+		close(start)
+		wg.Wait()
+		for i, p := range ps {
+			if okc[i] {
+				before := r.countEv("ctl.closeproxy.end")
+				_ = p.CloseProxy("a")
+				waitFor(2*time.Second, func() bool { return r.countEv("ctl.closeproxy.end") > before })
+			}
+		}
+		r.stat("namerace_rounds")
 	}
 	for _, p := range ps {
 		p.Close()
